@@ -950,20 +950,22 @@ Qed.
 (* the final hypotheses: only the open findings remain                                       *)
 (* ---------------------------------------------------------------------------------------- *)
 
-Definition enum_resize_ok_f (s : state) (e : nat) : Prop :=
-  (forall x, In x (erefs s e) -> single_followers s x) /\ unshared s (erefs s e).
+Definition enum_resize_ok_f (s : state) (e : nat) (a : Z) : Prop :=
+  (forall x, In x (erefs s e) -> single_moved s (rel s) x a) /\ unshared s (erefs s e).
 
 Definition ok_op_f (s : state) (o : op) : Prop :=
   match o with
   | OAppend m x | OInsert m x _ => ~ attached s x                                        (* D20 *)
   | OMuxInsert u x _ _ =>
       ~ attached s x \/ (memb x (usigs s u) = true /\ forall L, In x (lay s L) -> exists g, L = LG u g)   (* D20 *)
-  | OSetType x _ | OSetEnum x _ => single_followers s x                                  (* D35 *)
-  | OAddValue e idx => emax s e < idx -> esize_of (emin s e) idx <> esize s e -> enum_resize_ok_f s e   (* D35, D36 *)
+  | OSetType x n => single_moved s (rel s) x (n - sz s x)                                (* D35 *)
+  | OSetEnum x e => single_moved s (rel s) x (esize s e - sz s x)                        (* D35 *)
+  | OAddValue e idx => emax s e < idx -> esize_of (emin s e) idx <> esize s e ->
+      enum_resize_ok_f s e (esize_of (emin s e) idx - esize s e)                          (* D35, D36 *)
   | OUpdateIndex v idx =>
       forall e, vpar s v = Some e ->
         esize_of (emin s e) (Z.max (Z.max 0 idx) (max_index s (lrem v (evals s e)))) <> esize s e ->
-        enum_resize_ok_f s e                                                              (* D35, D36 *)
+        enum_resize_ok_f s e (esize_of (emin s e) (Z.max (Z.max 0 idx) (max_index s (lrem v (evals s e)))) - esize s e)   (* D35, D36 *)
   | OSetMinSize e n => forall x, In x (erefs s e) -> attached s x -> esize_of n (emax s e) <= esize s e   (* D03 *)
   | _ => True
   end.
